@@ -58,8 +58,14 @@ def content_findings(prog: Program, res: Results, rid: str, only_fields=None, de
             owner_f = prog.funcs.get(site[0]) if site else None
             while owner_f is not None and owner_f.parent is not None:
                 owner_f = owner_f.parent
-            ttxt = alpha(tnode, owner_f.node)[:70] if (tnode is not None and owner_f is not None) else p["test"][:70]
-            key = (c if entry == "rebuild" else f"{c}.{entry}", p["field"], "never rendered" if p["kind"] == "never" else f"dropped under `{ttxt}` ({p['lacking']} side)")
+            # the key states the condition positively: `not t` (body side) is the same condition as `t` (else side)
+            lacking_side = p["lacking"]
+            kn = tnode
+            while isinstance(kn, ast.UnaryOp) and isinstance(kn.op, ast.Not) and lacking_side in ("body", "else"):
+                kn = kn.operand
+                lacking_side = "else" if lacking_side == "body" else "body"
+            ttxt = alpha(kn, owner_f.node)[:70] if (kn is not None and owner_f is not None) else p["test"][:70]
+            key = (c if entry == "rebuild" else f"{c}.{entry}", p["field"], "never rendered" if p["kind"] == "never" else f"dropped under `{ttxt}` ({lacking_side} side)")
             if key in seen:
                 continue
             seen.add(key)
